@@ -228,7 +228,7 @@ fn back(case: &Value, issuer_doc: &CoreDocument) -> Vec<(String, Value, Value)> 
   let accept = b(&case["out"]["accept"]);
   match (res, accept) {
     (Err(_), false) => {}
-    (Err(e), true) => diffs.push(("consistent_claims_rejected".into(), json!("accepted"), json!({"error": e.to_string(), "claims": claims}))),
+    (Err(e), true) => diffs.push(("~consistent_claims_rejected".into(), json!("accepted"), json!({"error": e.to_string(), "claims": claims}))),
     (Ok(d), false) => diffs.push(("inconsistent_claims_accepted".into(), json!("rejected"), json!({"claims": claims, "credential": serde_json::to_value(&d.credential).unwrap()}))),
     (Ok(d), true) => {
       let want_iss = if s(&case["out"]["issuance"]) == "w" { T1 } else { T0 };
